@@ -20,7 +20,10 @@ try:
         failed = [l.strip()[len("failed obligation "):] for l in r.stderr.split("\n") if "failed obligation" in l]
         und = [l.strip() for l in r.stderr.split("\n") if l.startswith("UNDECIDED")]
         res[p] = {"exit": r.returncode, "violation_lines": [l for l in r.stdout.split("\n") if l.startswith("VIOLATION")], "failed_obligations": failed[:8], "undecided": und[:4]}
-        print(seed, p, "exit", r.returncode, {0: "MISSED", 1: "DETECTED", 2: "UNDECIDED"}.get(r.returncode), (failed + und + [""])[0][:200])
+        vl = res[p]["violation_lines"]
+        verdict = {0: "MISSED", 2: "UNDECIDED"}.get(r.returncode, "DETECTED" if (r.returncode == 1 and vl) else "DRIVER-ERROR")
+        res[p]["verdict"] = verdict
+        print(seed, p, "exit", r.returncode, verdict, (failed + und + [""])[0][:200], flush=True)
     json.dump(res, open("/verif/seeded/%s/detect.json" % seed, "w"), indent=1)
 finally:
     subprocess.run(["git", "-C", "/repo", "worktree", "remove", "--force", wt])
